@@ -1023,7 +1023,7 @@ def load_and_run_results(A: Analysis, col: Collector, rule: str):
 @prop(
     "C13",
     technique="typestate + handler-completion analysis over the exception CFG of the run functions; dominance (edge) checks in Task.__call__/Job.done; abstract key-coverage of PythonTask._run return binding; resolved-call signature check",
-    decides="(a) the handler after the task body sets result.errored=True, calls record_error and re-raises on every completing path; (b) a cached result is returned only under `is not None and not errored`; (c) Task.__call__ raises for errored results and Job.done never returns True for one; (d) no path publishes errored=False without outputs; (e) every declared python output is bound or NOTHING is rejected; (f) load_and_run's error branches build Result with its real signature.",
+    decides="(a) the handler after the task body sets result.errored=True, calls record_error and re-raises on every completing path; (b) a cached result is returned only under `is not None and not errored`; (c) Task.__call__ raises for errored results and Job.done never returns True for one; (d) no path publishes errored=False without outputs; (e) every declared python output is bound or NOTHING is rejected; (f) load_and_run's error branches build Result with its real signature; (g) the errored latch that the cache check may set on the Job is cleared before a successful re-execution returns (otherwise the fresh success is reported as the old failure).",
     not_decided="the content of the recorded error; that a non-zero exit status is turned into an exception by the environments' executors (checked only as raise presence in C27/C39 scope).",
     level_note="Trusted: may-raise tables; attrs init synthesis (pydra_sa/sigcheck.py) follows attrs' documented rules for define(kw_only, auto_attribs), field(init, default, factory, kw_only) and leading-underscore stripping.",
 )
@@ -1034,6 +1034,7 @@ def check_c13(A: Analysis, col: Collector):
         handler_rule(A, col, R, "C13.handler")
         hit_condition(A, col, R, "C13.hit")
         result_typestate(A, col, R, "C13.typestate")
+    errored_latch_rule(A, col, "C13.latch")
     errored_is_reported(A, col, "C13.report")
     python_outputs_cover(A, col, "C13.python-outputs")
     load_and_run_results(A, col, "C13.load_and_run")
@@ -1795,3 +1796,47 @@ def check_c36(A: Analysis, col: Collector):
         col.fail("C36.reentrancy", "pydra.engine.audit.Audit", "shared-activity-id:" + "+".join(sorted(carried)), f"attributes {sorted(carried)} written by start_audit and read by finalize_audit live on the Audit object that Job.__init__ shares between all jobs of a submitter, and the run function is re-entrant ({cyc}): a nested job overwrites the outer job's activity id, so the outer end record carries the inner id", A.loc(assigns[0]))
     else:
         col.ok("C36.reentrancy", f"activity id attributes {sorted(carried)} live on a per-job Audit object (or the run function is not re-entrant)", A.loc(assigns[0]))
+
+
+# --------------------------------------------------------------------------- #
+# C13 (g): the errored latch of Job.result must not survive a successful re-run
+# --------------------------------------------------------------------------- #
+
+
+def errored_latch_rule(A: Analysis, col: Collector, rule: str):
+    """Job.result() latches `self._errored = True` when it loads an errored result and
+    afterwards short-circuits to a synthetic errored Result.  The run functions call it
+    for the cache check and re-execute when the cached result is errored; if the latch
+    is still set when the re-execution succeeds, the submitter's final job.result()
+    reports the fresh success as a failure."""
+    jr = A.func("pydra.engine.job.Job.result")
+    latches = [n for n in walk_own(jr.node) if isinstance(n, ast.Assign) and any(isinstance(t, ast.Attribute) and t.attr == "_errored" and dotted(t.value) == "self" for t in n.targets) and _const_bool(n.value) is True]
+    shortcut = [n for n in walk_own(jr.node) if isinstance(n, ast.If) and norm(n.test) in ("self.errored", "self._errored")]
+    if not latches or not shortcut:
+        col.ok(rule, "Job.result() does not latch an errored flag that short-circuits later lookups", A.loc(jr.node))
+        return
+    for R in run_functions(A):
+        fn = R.fn
+        toks = tokens_for(A, R)
+        res_ids = {n.id for c in R.result_calls for n in R.cfg.nodes_containing(c)}
+        task_ids = {n.id for n in R.cfg.nodes_containing(R.task_call)}
+
+        def transfer(node, st, completed):
+            latched, ran = st
+            if node.id in res_ids and completed:
+                latched = True
+            if node.id in task_ids and completed:
+                ran = True
+            if completed and node.kind == "stmt" and isinstance(node.stmt, ast.Assign):
+                for t in node.stmt.targets:
+                    if isinstance(t, ast.Attribute) and t.attr == "_errored" and dotted(t.value) == "self":
+                        b = _const_bool(node.stmt.value)
+                        latched = True if b is not False else False
+            return (latched, ran)
+
+        esc = explore(R.cfg, [(R.cfg.entry, None)], toks, state0=(False, False), transfer=transfer)
+        bad = [e for e in esc if e.exit_kind == "return" and e.state == (True, True)]
+        if bad:
+            col.fail(rule, fn.qualname, "errored-latch-survives-successful-rerun", "the cache check `self.result()` may latch self._errored (errored cached result); the function then re-executes the task and returns normally without clearing the latch, so the following job.result() reports the successful re-run as a failure", A.loc(R.result_calls[0]) if R.result_calls else A.loc(fn.node), witness=format_path(bad[0].path))
+        else:
+            col.ok(rule, f"{fn.qualname}: the errored latch set by the cache check is cleared before a successful re-execution returns", A.loc(fn.node))
